@@ -89,6 +89,22 @@ def run(tier, seed, replay=None):
         n = 1500 if tier == "quick" else 40000
         cases = [["QPUSH S:u1:100:S:1:GTC:5", "QPUSH S:u2:100:S:2:GTC:5", "QREMOVE u1", "QPUSH S:u1:100:S:3:GTC:7", "QPOP", "QPOP"]]
         cases += [gen_case(rng, rng.randint(4, 30), fresh_only=(i % 2 == 0)) for i in range(n)]
+        # bulk sequences: long queues, many removals by id before the pops (thresholds inside the queue code)
+        for i in range(40 if tier == "quick" else 1500):
+            n_ids = rng.randint(30, 160)
+            ids = ["u%d" % (j + 1) for j in range(n_ids)]
+            ops = []
+            for j, k in enumerate(ids):
+                ops.append("QPUSH " + gen.order("S", oid=k, price=100, side="S", ts=10 + j, tif="GTC", vis=1 + j % 7))
+            rm = rng.sample(ids, rng.randint(5, n_ids - 1))
+            if rng.random() < 0.5:
+                rm.sort(key=lambda x: int(x[1:]))
+            for j, k in enumerate(rm):
+                ops.append("QREMOVE " + k)
+                if rng.random() < 0.03:
+                    ops.append("QPOP")
+            ops += ["QLEN"] + ["QPOP"] * (n_ids - len(rm) + 2) + ["QEMPTY"]
+            cases.append(ops)
     lines = ["q%d|%s" % (i, "|".join(ops)) for i, ops in enumerate(cases)]
     recs = run_queue(lines)
     corr_bad, judge_bad, k2 = [], [], None
@@ -111,9 +127,10 @@ def run(tier, seed, replay=None):
 
             def canon(x):
                 return ",".join(lvl.canon_vec(x)) if x.startswith("[") else x
+            stop = False
             if canon(I) != canon(conc_):
                 corr_bad.append((ops, o["i"], "implementation %s, model %s" % (I[:100], conc_[:100])))
-                break
+                stop = True     # still judge this answer against the abstract FIFO below
             if I.startswith("[") and not lvl.ts_sorted(I):
                 judge_bad.append((ops, o["i"], "listing not in timestamp order: %s" % I))
                 break
@@ -122,6 +139,8 @@ def run(tier, seed, replay=None):
                     k2 = k2 or (ops, o["i"])
                 else:
                     judge_bad.append((ops, o["i"], "`%s` returns %s, a FIFO with removal by id returns %s" % (o["op"][:40], I[:100], spec[:100])))
+                break
+            if stop:
                 break
     ck.cov["evaluations"] = n_ops
     ck.cov["distinct_nontrivial"] = len(distinct)
